@@ -220,4 +220,6 @@ def build():
         "cross-table nodes (UUID -> table id), whole-row/column tracts, header-label scoping and quoting of hostile names: bounded stand-in only",
     ]
     plan.trusted += ["pyvc AST->SMT translation (cross-checked against CPython)", "z3 5.1.0 (quantified lemmas)", "cvc5 1.0.3"]
+    plan.level = "other"
+    plan.explanation = ('Mixed: coordinate resolution (node_to_ref), the qualification chosen by expand_ref, the A1 text of cell ranges and the resolver lemmas (any number of sheets/tables) are proved; header labels, whole-row/column tracts, quoting and rename/relabel histories are a bounded stand-in with an independent resolver.')
     return plan
